@@ -150,12 +150,20 @@ fn main() {
             };
             rep.class(&format!("inst:{}", iname));
             let fwd: BTreeMap<String, u64> = w.caller_vals.clone();
+            // the same unwind through a FrameWalker that forwards nothing by default: what the record itself sets, nothing else
+            let clean = Mock { instruction: 0x1010, has_gc: w.has_gc, gc: w.gc, callee: w.callee.clone(), mem: mem_eval, caller_vals: BTreeMap::new(), caller_valid: BTreeSet::new() };
             let got = observe(&sym, w);
             rep.evaluations += 1;
             if got != exp {
                 rep.mismatch(&classify(&exp, &got, "win-framedata", &fwd), json!({"symbols": sym, "instance": iname, "expected": exp, "observed": got}));
             } else if exp["ok"] == json!(true) && prog.len() >= 3 {
                 rep.sample(json!({"symbols": sym, "instance": iname, "expected": exp}));
+            }
+            let got_clean = observe(&sym, clean);
+            rep.evaluations += 1;
+            rep.class("clean-walker");
+            if got_clean != exp {
+                rep.mismatch(&classify(&exp, &got_clean, "win-framedata-cleanwalker", &BTreeMap::new()), json!({"symbols": sym, "instance": iname, "expected": exp, "observed": got_clean}));
             }
         }),
         "fpo" => for_each_case(path, "CASE", |c| {
@@ -186,12 +194,19 @@ fn main() {
                 json!({"ok": false})
             };
             let fwd: BTreeMap<String, u64> = w.caller_vals.clone();
+            let clean = Mock { instruction: 0x1010, has_gc: w.has_gc, gc: w.gc, callee: w.callee.clone(), mem: mem_fpo, caller_vals: BTreeMap::new(), caller_valid: BTreeSet::new() };
             let got = observe(&sym, w);
             rep.evaluations += 1;
             if got != exp {
                 rep.mismatch(&classify(&exp, &got, "win-fpo", &fwd), json!({"symbols": sym, "cfg": cfg, "expected": exp, "observed": got}));
             } else if exp["ok"] == json!(true) {
                 rep.sample(json!({"symbols": sym, "cfg": cfg, "expected": exp}));
+            }
+            let got_clean = observe(&sym, clean);
+            rep.evaluations += 1;
+            rep.class("clean-walker");
+            if got_clean != exp {
+                rep.mismatch(&classify(&exp, &got_clean, "win-fpo-cleanwalker", &BTreeMap::new()), json!({"symbols": sym, "cfg": cfg, "expected": exp, "observed": got_clean}));
             }
         }),
         _ => panic!("mode"),
